@@ -207,8 +207,21 @@ def run(ctx, rep):
         out_ = set()
         if not tbx:
             return None
+        # local variables bound by a plain `let x = <init>` are looked through (the extension may be computed once)
+        inits = {}
+        for st in tbx.stmts:
+            if st.get("k") == "let" and st.get("init") is not None and (st.get("pat") or {}).get("k") == "Bind" and st["pat"].get("sub") is None:
+                inits[st["pat"]["id"]] = st["init"]
+
+        def mentions_ext(i, depth=0):
+            for _, x in tbx.walk(i):
+                if x["k"] == "Call" and (x.get("fn") or "").endswith("Path::extension"):
+                    return True
+                if x["k"] in ("Var", "Upvar") and x.get("id") in inits and depth < 4 and mentions_ext(inits[x["id"]], depth + 1):
+                    return True
+            return False
         for i, n in tbx.walk():
-            if n["k"] == "Call" and any((x.get("fn") or "").endswith("Path::extension") for a in n["args"] for _, x in tbx.walk(a) if x["k"] == "Call"):
+            if n["k"] == "Call" and any(mentions_ext(a) for a in n["args"]):
                 fn_ = (n.get("fn") or "")
                 nm = fn_.split("::")[-1]
                 if nm in ("unwrap", "expect", "is_none", "is_some"):
